@@ -156,7 +156,9 @@ func (p *programSplitter) next() {
 			p.offset++
 			return
 		}
-		p.lastComments = append(p.lastComments, string(bytes.TrimSpace(p.text[1:])))
+		// The "#" may be indented (see isComment): the text starts after it.
+		text := bytes.TrimLeftFunc(p.text, unicode.IsSpace)
+		p.lastComments = append(p.lastComments, string(bytes.TrimSpace(text[1:])))
 	}
 
 	// Reached EOF.
